@@ -218,11 +218,15 @@ class BO(Conversions):
         """
         super().__setitem__(key, value)
 
-        for i in key:
-            if i not in self._mapping:
-                self._mapping[i] = self._next_label
-                self._reverse_mapping[self._next_label] = i
-                self._next_label += 1
+        # only labels that became variables get mapped: a zero value adds
+        # no variables, and squashing may remove labels from the key.
+        if value:
+            squashed = self.__class__.squash_key(key)
+            for i in key:
+                if i in squashed and i not in self._mapping:
+                    self._mapping[i] = self._next_label
+                    self._reverse_mapping[self._next_label] = i
+                    self._next_label += 1
 
     def to_enumerated(self):
         """to_enumerated.
